@@ -49,10 +49,20 @@ C04_QUICK = C04_QUICK + [_h(f"c04f::c04f_check{d}__{t}", bound="float type: coun
                          for t in FLOAT_TYPES for d in (2, 3)]
 C04_THOROUGH = C04_QUICK + [_h(f"c04::c04_check{d}__{t}", bound=f"degree {d} (generic clauses: count, sign, magnitude bound, hard limiting)", timeout=2400)
                             for t in I8_TYPES for d in (4, 5, 6, 8)]
+# quick tier (must stay far below the 900 s cap of `vp check`, which runs on a shared machine): print/parse
+# through Display and FromStr and the clap value name for all 36 names, non-member strings, and the concrete
+# decoder type for the 12 HL names plus one flooding name per arithmetic family; the thorough tier adds clap's
+# own parser and the type harness for every name
+C18_TYPE_QUICK = [n for n in NAMES if n.startswith("HL")] + ["Phif64", "Tanhf32", "Minstarapproxf64", "Minstarapproxi8Jones",
+                                                            "Aminstarf32", "Aminstari8PartialHardLimitDeg1Clip"]
 C18_QUICK = ([_h("c18::c18_reject_nonmembers_fromstr", timeout=850, mem_gb=6)]
-             + [_h(f"c18::c18_type__{n}", mem_gb=2.5, timeout=800) for n in NAMES]
-             + [_h(f"c18::c18_print_parse__{n}", mem_gb=2.5, timeout=800) for n in NAMES]
+             + [_h(f"c18::c18_type__{n}", mem_gb=2.5, timeout=800) for n in C18_TYPE_QUICK]
+             + [_h(f"c18::c18_print_fromstr__{n}", mem_gb=2.5, timeout=800) for n in NAMES]
              + [_h(f"c18::c18_clap__{n}", mem_gb=2, timeout=800) for n in NAMES])
+C18_THOROUGH = ([_h("c18::c18_reject_nonmembers_fromstr", timeout=1800, mem_gb=6)]
+                + [_h(f"c18::c18_type__{n}", mem_gb=2.5, timeout=1800) for n in NAMES]
+                + [_h(f"c18::c18_print_parse__{n}", mem_gb=2.5, timeout=1800) for n in NAMES]
+                + [_h(f"c18::c18_clap__{n}", mem_gb=2, timeout=1800) for n in NAMES])
 C15_IL_QUICK = ["2x3", "4x2"]
 C15_IL_ALL = ["1x1", "1x3", "2x2", "2x3", "3x2", "3x3", "2x4", "4x2", "3x1", "5x1", "1x9", "9x1"]
 C15_QUICK = ([_h(f"c15::c15_interleave_{s}", timeout=1500, mem_gb=8, bound=f"shape columns x rows = {s}") for s in C15_IL_QUICK]
@@ -226,7 +236,7 @@ PROPS = {
         "level": "proof",
         "title": "Each decoder implementation name builds the arithmetic and schedule it names",
         "verus": [],
-        "kani": {"quick": C18_QUICK, "thorough": C18_QUICK},
+        "kani": {"quick": C18_QUICK, "thorough": C18_THOROUGH},
         "assumptions": [
             "Kani/CBMC/CaDiCaL; finite domain: the 36 names (complete) and every ASCII string of up to 48 bytes",
             "concrete decoder type read through the guarded hook LdpcDecoder::verif_type_name (std::any::type_name)",
